@@ -14,7 +14,12 @@ Tie: for generated parameter sets x temperatures / strains
     `interval`, comparisons by `lra`, literals are the exact floats), and that the
     Python forward law agrees with the Coq law,
   * once through TdmsWriter -> TdmsFile with NI_Scale[0]_* properties: channel[:]
-    equals the direct scale() (ties the from_properties name mapping).
+    equals the direct scale() (ties the from_properties name mapping),
+  * float_tie: the binary64 models of Model/SensorsF.v (RTD quadratic branch incl. the lead
+    compensation and the branch test, all seven strain bridges) evaluated inside Coq
+    (vm_compute) on ~600 (parameters, voltage) samples per scaling kind and compared bit for
+    bit with float.hex() of the implementation's result; these are the models the rounding
+    theorems of Props/C17_float.v are about.
 """
 import io
 import json
@@ -702,6 +707,145 @@ def check_goals(run, collect, per_file=200, max_rounds=4):
 
 
 # ---------------------------------------------------------------------------
+# binary64 models (Model/SensorsF.v) against the implementation, bit for bit
+
+IMPORTS_F = ("From Coq Require Import ZArith List PrimFloat.\nFrom NpTdms Require Import Model.SensorsF.\n"
+             "Import ListNotations.\nOpen Scope Z_scope.\n")
+
+
+def cf(x):
+    """python float -> Coq PrimFloat term (bit-exact; NaNs identified)"""
+    x = float(x)
+    if x != x:
+        return "nan"
+    if x in (float("inf"), float("-inf")):
+        return "infinity" if x > 0 else "neg_infinity"
+    return "(%s)%%float" % x.hex()
+
+
+def cof(x):
+    return "None" if x is None else "(Some %s)" % cf(x)
+
+
+def rtd_float_case(p, v):
+    """One voltage through RtdScaling.scale; which branch ran is observed by wrapping
+    _solve_quartic_form (its argument is the r_t of the implementation)."""
+    seen = []
+    orig = S.RtdScaling._solve_quartic_form
+
+    def spy(self, r_t):
+        seen.append(float(r_t))
+        return orig(self, r_t)
+    S.RtdScaling._solve_quartic_form = spy
+    try:
+        y = float(make_scaling("rtd", p).scale(np.array([v], dtype=np.float64))[0])
+    except ValueError:          # the quartic branch may refuse (defect D23 family); the branch was still observed
+        y = None
+    finally:
+        S.RtdScaling._solve_quartic_form = orig
+    a2 = p["a"] ** 2            # the expression of scaling.py, evaluated by the same Python
+    # hypothesis of Props/C17_float.v on the C library's pow: within one ulp, |a2 - a*a| <= 2^-52 a*a
+    pow_ok = abs(fr(a2) - fr(p["a"]) ** 2) <= Fr(1, 2 ** 52) * fr(p["a"]) ** 2
+    rtq = seen[0] if seen else None
+    term = "(%s, %s, %s, %s, %s, %s, %d, %s, %s, %s)" % (
+        cf(p["i"]), cf(p["r0"]), cf(p["a"]), cf(a2), cf(p["b"]), cf(p["lead"]), p["cfg"], cf(v),
+        cof(rtq), cof(None if seen else y))
+    meta = {"op": "float_tie", "kind": "rtd", "params": p, "v": float(v).hex(), "a_pow_2": float(a2).hex(),
+            "quartic_r_t": None if rtq is None else rtq.hex(), "impl": None if y is None else y.hex(),
+            "pow_within_one_ulp": pow_ok}
+    return term, meta, (a2 != p["a"] * p["a"]), bool(seen)
+
+
+def strain_float_case(p, v):
+    y = float(make_scaling("strain", p).scale(np.array([v], dtype=np.float64))[0])
+    term = "(%d, %s, %s, %s, %s, %s, %s, %s, %s, %s)" % (
+        p["cfg"], cf(p["nu"]), cf(p["r0"]), cf(p["rl"]), cf(p["init"]), cf(p["g"]), cf(p["gain"]), cf(p["vex"]),
+        cf(v), cf(y))
+    meta = {"op": "float_tie", "kind": "strain", "params": p, "v": float(v).hex(), "impl": y.hex()}
+    return term, meta
+
+
+def float_tie(run, rng, only=None):
+    """~600 (parameters, voltage) samples per scaling kind from the generators above, evaluated with the PrimFloat
+    model inside Coq (vm_compute) and compared with float.hex() of the implementation's result."""
+    n = run.pick(600, 6000)
+    rtd_cases, rtd_meta, st_cases, st_meta = [], [], [], []
+    if only is None:
+        rtd_in = []
+        while len(rtd_in) < 2 * n:          # about half of the temperatures are below 0 degC (quartic branch)
+            p = gen_rtd_params(rng)
+            for t in gen_rtd_temps(rng, 6):
+                rtd_in.append((p, rtd_forward(p, t)))
+            # voltages a few ulp around I*R0: both sides of the float comparison r_t >= r_0
+            v0 = rtd_forward(p, 0.0)
+            for k in (-2, -1, 1, 2):
+                v = v0
+                for _ in range(abs(k)):
+                    v = float(np.nextafter(v, np.inf if k > 0 else -np.inf))
+                rtd_in.append((p, v))
+        st_in = []
+        per = -(-n // len(BRIDGES))
+        for _, code in BRIDGES:
+            k = 0
+            while k < per:
+                p = gen_strain_params(rng, code)
+                for e in gen_strains(rng, 6):
+                    st_in.append((p, strain_forward(p, e)))
+                    k += 1
+    else:
+        rtd_in = [(only["params"], float.fromhex(only["v"]))] if only["kind"] == "rtd" else []
+        st_in = [(only["params"], float.fromhex(only["v"]))] if only["kind"] == "strain" else []
+    pow_differs = 0
+    for p, v in rtd_in:
+        term, meta, differs, quartic = rtd_float_case(p, v)
+        rtd_cases.append(term)
+        rtd_meta.append(meta)
+        pow_differs += differs
+        if not meta["pow_within_one_ulp"]:
+            run.violation("pow-assumption", "a ** 2 = %s is more than one ulp away from a*a for a = %r: the hypothesis on "
+                          "a2 of Props/C17_float.v (rtd_quadratic_rounding) does not hold on this platform"
+                          % (meta["a_pow_2"], p["a"]), meta, kind="correspondence-broken",
+                          theorem="Props/C17_float.v hypothesis |a2 - a^2| <= 2^-52 a^2", no_input=True)
+        run.count("float_tie_rtd_%s" % ("quartic_branch_r_t_only" if quartic else "quadratic"))
+    for p, v in st_in:
+        term, meta = strain_float_case(p, v)
+        st_cases.append(term)
+        st_meta.append(meta)
+        run.count("float_tie_strain_%s" % BRIDGE_NAME[p["cfg"]].lower())
+    run.cov["evaluations"] += len(rtd_cases) + len(st_cases)
+    if pow_differs:
+        run.count("float_tie_rtd_a_pow_2_not_a_times_a", pow_differs)
+    for cases, meta, ty, fn, tag in (
+            (rtd_cases, rtd_meta, "float * float * float * float * float * float * Z * float * option float * option float",
+             "check_rtd_F", "ftie_rtd"),
+            (st_cases, st_meta, "Z * float * float * float * float * float * float * float * float * float",
+             "check_strain_F", "ftie_strain")):
+        if not cases:
+            continue
+        bad, errors = H.run_sharded(run.pid, IMPORTS_F, ty, fn, cases, shard=max(50, -(-len(cases) // H.NCPU)), tag=tag)
+        run.corr_errors(errors)
+        run.cov["traces_validated_against_impl"] += len(cases) - len(bad)
+        run.count("float_tie_model_compared", len(cases))
+        for j in bad[:3]:
+            m = meta[j]
+            c = cases[j]
+            if m["kind"] == "rtd":
+                show = ["let '(i, r0, a, a2, b, lead, cfg, v, _, _) := %s in "
+                        "(rtd_r_t_F i lead cfg v, rtd_scale_F i r0 a a2 b lead cfg v)" % c]
+            else:
+                show = ["let '(cfg, nu, r0, rl, init, g, gain, vex, v, _) := %s in "
+                        "strain_scale_F cfg nu r0 rl init g gain vex v" % c]
+            rc, out = H.coq_print_terms(run.pid, IMPORTS_F, show, tag="show_%s%d" % (tag, j))
+            run.violation("corr-float-" + m["kind"],
+                          "Model.SensorsF and the implementation disagree bit-wise (%s): params %r, voltage %s, "
+                          "implementation %s" % (m["kind"], m["params"], m["v"], m["impl"]),
+                          m, kind="correspondence-broken", theorem="Model.SensorsF vs nptdms.scaling (float_tie)",
+                          expected=m["impl"], model=out[-800:], no_input=True)
+        if bad:
+            run.notes.append("float_tie %s: model/implementation disagree on %d of %d samples" % (tag, len(bad), len(cases)))
+
+
+# ---------------------------------------------------------------------------
 # through TdmsWriter / TdmsFile (from_properties name mapping)
 
 def end_to_end(run, cases):
@@ -733,7 +877,7 @@ def end_to_end(run, cases):
 
 def replay(run, case):
     collect = []
-    kind = case.get("kind")
+    kind = case.get("kind") if case.get("op") != "float_tie" else "float_tie"
     if kind in ("rtd", "thermistor", "strain"):
         run_sensor(run, kind, [(case["params"], case["xs"])], "replay", collect)
     elif kind == "polynomial":
@@ -766,6 +910,9 @@ def replay(run, case):
                                   expected=float(w), actual=y)
     elif kind == "e2e":
         end_to_end(run, [(case["scale"], case["params"], case["vs"])])
+    elif case.get("op") == "float_tie":
+        float_tie(run, None, only=case)
+        return
     else:
         print("replay: nothing to re-run for", kind)
         return
@@ -799,6 +946,7 @@ def main():
     run_polynomial(run, rng, run.pick(30, 300), collect)
     run_table(run, rng, run.pick(20, 250), collect)
     check_goals(run, collect)
+    float_tie(run, random.Random(run.seed + 17))
     # end to end: one file per scaling type and a few parameter sets
     e2e = []
     for p, xs in rtd[:run.pick(6, 40)]:
@@ -824,7 +972,10 @@ def main():
             [s for s in collect if s["kind"] == "strain" and s["case"]["params"]["gain"] != 1.0][:1]:
         run.sample({"case": s["case"], "voltage": s["v"], "implementation": s["y"], "goal": s["goals"][0][1][:400]})
     run.assumptions = [
-        "real-number model: float rounding of the implementation is bounded per sample (1e-9 relative), not by a theorem",
+        "float rounding: bounded by theorem (Props/C17_float.v) for the RTD quadratic branch and the strain bridges, "
+        "under stated parameter ranges, on binary64 models tied bit-exactly to the implementation (float_tie); the "
+        "thermistor (np.log) and the RTD quartic branch (polyroots) have no binary64 model and stay bounded per sample "
+        "(1e-9 relative); `a ** 2` of RtdScaling is the C library's pow, assumed within one ulp of a*a",
         "numpy.polynomial.polynomial.polyroots is an oracle: assumed to list each real root below 1e-9 of the RTD "
         "quartic once (small_roots_ok; the filter of _get_negative_real_root after repair D23); validated per sample "
         "by the bracket goals and the direct oracle",
